@@ -443,14 +443,15 @@ Definition run_D (buf : bytes) : list Z :=
 (* correspondence operation S: build a TLV set in a backing buffer of [cap] bytes from the
    listed TLVs, put it into a message, serialise into a buffer of [blen] bytes filled with
    [fill], parse the result.
-   input: [cap; blen; fill; ntlv; (type; vlen; value...)*; header(28); body...]
+   input: [cap; blen; fill; ntlv; (kind * 65536 + type; vlen; value...)*; header(28); body...]
+   (kind selects how the harness builds the TlvType: from_primitive, Reserved, Legacy, Experimental)
    output: [-100-e] (builder) | [-e] (serialise) | 0 :: out_len :: out ++ (parse: 1 if equal to the
    original, 0 if different, -e on error) *)
 Fixpoint dec_tlvs (n : nat) (l : list Z) : list tlv * list Z :=
   match n with
   | O => ([], l)
   | S k =>
-      let ty := nz 0 l in let vl := Z.to_nat (nz 1 l) in
+      let ty := (nz 0 l) mod 65536 in let vl := Z.to_nat (nz 1 l) in
       let '(r, rest) := dec_tlvs k (skipn (2 + vl) l) in
       ((ty, firstn vl (skipn 2 l)) :: r, rest)
   end.
@@ -474,3 +475,17 @@ Definition run_S (inp : list Z) : list Z :=
            end]
       end
   end.
+
+(* correspondence operation T: the from_primitive / to_primitive tables, exhaustively *)
+Definition range256 : list Z := map Z.of_nat (seq 0 256).
+Definition run_T (k : Z) : list Z :=
+  if k =? 0 then flat_map (fun x => enc_acc (acc_from_prim x) ++ [acc_to_prim (acc_from_prim x)]) range256
+  else if k =? 1 then flat_map (fun x => enc_tsrc (tsrc_from_prim x) ++ [tsrc_to_prim (tsrc_from_prim x)]) range256
+  else if k =? 2 then flat_map (fun x => [enc_action (action_from_prim x); action_to_prim (action_from_prim x)]) range256
+  else [1].
+
+(* dispatcher: first element 0 = D, 1 = S, 2 = T *)
+Definition run_C41 (inp : list Z) : list Z :=
+  let op := nz 0 inp in
+  if op =? 0 then run_D (skipn 1 inp) else if op =? 1 then run_S (skipn 1 inp) else run_T (nz 1 inp).
+Definition zlist_eqb (a b : list Z) : bool := list_eqb a b.
